@@ -343,6 +343,11 @@ def check_format_input_vector(
         ),
     )
     if isinstance(reshape, tuple):
+        if inp.size == 0:
+            raise MagpylibBadUserInput(
+                f"Input parameter `{sig_name}` must be {sig_type}.\n"
+                "Instead received an empty array."
+            )
         return np.reshape(inp, reshape)
 
     if forbid_negative0:
